@@ -31,3 +31,11 @@ Definition res_of (r : sresult) : res verr unit :=
 
 Definition with_mac (t : stsig) (mac : bytes) : stsig :=
   mkStsig (t_key t) (t_alg t) (t_time t) (t_fudge t) mac (t_orig_id t) (t_error t) (t_other t).
+
+(* Writer's TsigMode for a signing mode of the spec *)
+Definition tmode_of (d : dmode) (a : alg) (key : bytes) : tsig_mode :=
+  match d with
+  | DRequest => TmRequest a key
+  | DResponse rm => TmResponse a rm key
+  | DSubsequent pm => TmSubsequent a pm key
+  end.
